@@ -769,3 +769,52 @@ Lemma ex2_rects_parse :
   parse_stream ex2_state (print_fbu 0 ex2_rects) =
   ([MFbu 5 (map fst ex2_rects) false], ex2_state, SeClean).
 Proof. vm_compute. reflexivity. Qed.
+
+(* ------------------------------------------------------------------ the other message types *)
+Theorem parse_print_other : forall hf s rest,
+  parse_msg hf s (print_bell ++ rest) = POk (MBell, s) rest /\
+  (forall d, Z.of_nat (length d) < 2147483648 ->
+     parse_msg hf s (print_cuttext d ++ rest) = POk (MCutText (Z.of_nat (length d)) false, s) rest) /\
+  (forall d, mem enc_ExtendedClipboard (p_latest s) = true -> 4 <= Z.of_nat (length d) <= 2147483648 ->
+     parse_msg hf s (print_cuttext_ext d ++ rest) = POk (MCutText (Z.of_nat (length d)) true, s) rest) /\
+  (forall first entries, p_truecolour s = false -> r16 first -> r16 (Z.of_nat (length entries)) ->
+     Forall (fun e => len_is e 6) entries ->
+     parse_msg hf s (print_cmap first entries ++ rest) = POk (MCMap first (Z.of_nat (length entries)), s) rest) /\
+  (forall w h, p_scale_requested s = true -> r16 w -> r16 h ->
+     parse_msg hf s (print_resize w h ++ rest) = POk (MResize w h, pst_set_fb s w h) rest) /\
+  (forall v c, mem enc_Xvp (p_named s) = true ->
+     parse_msg hf s (print_xvp v c ++ rest) = POk (MXvp v c, s) rest).
+Proof.
+  intros hf s rest. split; [reflexivity|]. split; [|split; [|split; [|split]]].
+  - intros d Hd. unfold print_cuttext, parse_msg. cbn [app u8 pbind].
+    change (s2c_ServerCutText =? s2c_FramebufferUpdate) with false. change (s2c_ServerCutText =? s2c_SetColourMapEntries) with false.
+    change (s2c_ServerCutText =? s2c_Bell) with false. change (s2c_ServerCutText =? s2c_ServerCutText) with true. cbv iota.
+    change (skip 3 (0 :: 0 :: 0 :: (p32 (Z.of_nat (length d)) ++ d) ++ rest)) with (POk tt ((p32 (Z.of_nat (length d)) ++ d) ++ rest)).
+    cbn [pbind]. rewrite <- app_assoc. rewrite u32_p32 by (unfold r32; lia). cbn [pbind].
+    destruct (Z.of_nat (length d) <? 2147483648) eqn:E; [|lia]. rewrite skip_app by reflexivity. reflexivity.
+  - intros d Hm Hd. unfold print_cuttext_ext, parse_msg. cbn [app u8 pbind].
+    change (s2c_ServerCutText =? s2c_FramebufferUpdate) with false. change (s2c_ServerCutText =? s2c_SetColourMapEntries) with false.
+    change (s2c_ServerCutText =? s2c_Bell) with false. change (s2c_ServerCutText =? s2c_ServerCutText) with true. cbv iota.
+    change (skip 3 (0 :: 0 :: 0 :: (p32 (4294967296 - Z.of_nat (length d)) ++ d) ++ rest))
+      with (POk tt ((p32 (4294967296 - Z.of_nat (length d)) ++ d) ++ rest)).
+    cbn [pbind]. rewrite <- app_assoc. rewrite u32_p32 by (unfold r32; lia). cbn [pbind].
+    destruct (4294967296 - Z.of_nat (length d) <? 2147483648) eqn:E; [lia|]. cbv zeta. rewrite Hm. cbn [negb].
+    replace (4294967296 - (4294967296 - Z.of_nat (length d))) with (Z.of_nat (length d)) by lia.
+    destruct (Z.of_nat (length d) <? 4) eqn:E4; [lia|]. rewrite skip_app by reflexivity. reflexivity.
+  - intros first entries Htc Hf Hn He. unfold print_cmap, parse_msg. cbn [app u8 pbind].
+    change (s2c_SetColourMapEntries =? s2c_FramebufferUpdate) with false.
+    change (s2c_SetColourMapEntries =? s2c_SetColourMapEntries) with true. cbv iota. cbn [u8 pbind].
+    rewrite <- !app_assoc. rewrite u16_p16 by exact Hf. cbn [pbind]. rewrite u16_p16 by exact Hn. cbn [pbind].
+    rewrite Htc. rewrite skip_app by (rewrite (concat_len entries 6 He); reflexivity). reflexivity.
+  - intros w h Hs Hw Hh. unfold print_resize, parse_msg. cbn [app u8 pbind].
+    change (s2c_ResizeFrameBuffer =? s2c_FramebufferUpdate) with false. change (s2c_ResizeFrameBuffer =? s2c_SetColourMapEntries) with false.
+    change (s2c_ResizeFrameBuffer =? s2c_Bell) with false. change (s2c_ResizeFrameBuffer =? s2c_ServerCutText) with false.
+    change (s2c_ResizeFrameBuffer =? s2c_ResizeFrameBuffer) with true. cbv iota. cbn [u8 pbind].
+    rewrite <- app_assoc. rewrite u16_p16 by exact Hw. cbn [pbind]. rewrite u16_p16 by exact Hh. cbn [pbind].
+    rewrite Hs. reflexivity.
+  - intros v c Hm. unfold print_xvp, parse_msg. cbn [app u8 pbind].
+    change (s2c_Xvp =? s2c_FramebufferUpdate) with false. change (s2c_Xvp =? s2c_SetColourMapEntries) with false.
+    change (s2c_Xvp =? s2c_Bell) with false. change (s2c_Xvp =? s2c_ServerCutText) with false.
+    change (s2c_Xvp =? s2c_ResizeFrameBuffer) with false. change (s2c_Xvp =? s2c_PalmVNCReSizeFrameBuffer) with false.
+    change (s2c_Xvp =? s2c_Xvp) with true. cbv iota. cbn [u8 pbind]. rewrite Hm. reflexivity.
+Qed.
